@@ -12,9 +12,9 @@ from . import sched_common as sc
 from .. import common
 from ..schedlib import CACHE, layout, model_request, run_impl
 
-MODULES = sc.MODULES + ["Net", "NetC", "Output", "OutputLemmas", "Props.C05Run", "Props.C03Run", "Props.C01Run", "Props.C01RunC"]
+MODULES = sc.MODULES + ["Net", "NetC", "Output", "OutputLemmas", "Props.C05Run", "Props.C03Run", "Props.C01Run", "Props.C01RunC", "Props.C01Dpush"]
 GEN_OBLIGATIONS = sc.GEN_OBLIGATIONS
-THEOREM_DEPS = ["C01Run", "C01RunC"]
+THEOREM_DEPS = ["C01Run", "C01RunC", "C01Dpush"]
 
 SIG_F15 = "integration-zero-length-repeat"
 SIG_F16 = "pull-fanout-eviction"
